@@ -710,11 +710,71 @@ def run_netns_case(case, acc):
                     wantb = [ai.get("broadcast") for ai in r.get("addr_info", []) if ai["family"] == "inet" and ai["local"] == a.address]
                     if wantb and wantb[0] is not None and a.broadcast != wantb[0]:
                         viols.append(("net_if_addrs_broadcast_wrong", f"{name}: got {a.broadcast} want {wantb[0]}"))
+        # hot-unplug: one interface is deleted right before the k-th native question about it (mtu, flags, duplex/speed)
+        if len(made) >= 2:
+            h = int(harness.chash(case)[-3:], 16)
+            victim, k = made[h % len(made)]["name"], (h // 7) % 3
+            viols.extend(unplug_during_net_if_stats(ps, victim, k, acc))
     finally:
         for it in made:
             sh("ip", "link", "del", it["name"])
     acc.case(case, any(len(i["name"]) >= 14 or i["addrs"] for i in case["ifs"]), viols)
     harness.mark_current(None)
+
+
+class _NativeWatch:
+    """Stands in for a native module of psutil._pslinux: calls `before(name_of_function, args)` ahead of every call."""
+
+    def __init__(self, real, before):
+        self.__dict__["_real"] = real
+        self.__dict__["_before"] = before
+
+    def __getattr__(self, n):
+        v = getattr(self._real, n)
+        if not callable(v) or not n.startswith("net_if_"):
+            return v
+
+        def call(*a, **kw):
+            self._before(n, a)
+            return v(*a, **kw)
+        return call
+
+
+def unplug_during_net_if_stats(ps, victim, k, acc):
+    pl = ps._pslinux
+    seen = []
+    done = []
+
+    def before(fn, args):
+        if args and args[0] == victim:
+            if len(seen) == k and not done:
+                sh("ip", "link", "del", victim)
+                done.append(fn)
+            seen.append(fn)
+    real = (pl.cext, pl.cext_posix)
+    pl.cext, pl.cext_posix = _NativeWatch(real[0], before), _NativeWatch(real[1], before)
+    viols = []
+    try:
+        try:
+            stats = ps.net_if_stats()
+        except Exception as e:  # noqa: BLE001
+            return [(f"net_if_stats_exception:{type(e).__name__}:interface_unplugged_during_call",
+                     f"{victim} deleted right before native call #{k} ({done}) about it: {e!r}")]
+    finally:
+        pl.cext, pl.cext_posix = real
+    if not done:
+        return []
+    acc.count("netns_unplug_during_call_checked")
+    if victim in stats:
+        viols.append(("net_if_stats_reports_unplugged_interface",
+                      f"{victim} was deleted right before {done[0]}() asked about it, yet net_if_stats() reports {stats[victim]!r}"))
+    after = {r["ifname"]: r for r in json.loads(sh("ip", "-j", "addr", "show").stdout or "[]")}
+    for name, r in after.items():
+        if name not in stats:
+            viols.append(("net_if_stats_missing_interface:after_unplug_of_another", f"{name} (unplugged: {victim})"))
+        elif stats[name].mtu != r["mtu"]:
+            viols.append(("net_if_stats_mtu_wrong:after_unplug_of_another", f"{name}: got {stats[name].mtu} want {r['mtu']}"))
+    return viols
 
 
 # ---------------------------------------------------------------------------------------------
